@@ -741,4 +741,133 @@ def pat_bytes(seed, n):
     return out
 
 
-GENS = {"C01": gen_C01, "C05": gen_C05, "C09": gen_C09, "C10": gen_C10}
+GENS.update({"C01": gen_C01, "C05": gen_C05, "C09": gen_C09, "C10": gen_C10})
+# --------------------------------------------------------------------------- C04 BLAKE
+
+BLAKE_VARIANTS = {224: (32, 64), 256: (32, 64), 384: (64, 128), 512: (64, 128)}   # bits -> (word bits, block bytes)
+
+
+def blake_lengths(b, tier):
+    """boundary catalogue around the padding thresholds (b-footer = 55/111, b-8/16, b) and block multiples"""
+    if tier != "quick":
+        base = list(range(0, 301))
+    else:
+        base = [0, 1, 2, 3, 54, 55, 56, 57, 63, 64, 65, 110, 111, 112, 113, 119, 120, 127, 128, 129,
+                183, 184, 191, 192, 193, 239, 240, 247, 255, 256, 257, 300]
+    for k in (2, 3, 4):
+        for d in (-18, -17, -16, -10, -9, -8, -1, 0, 1):
+            base.append(k * b + d)
+    return sorted(set(x for x in base if x >= 0))
+
+
+def split_points(rng, n):
+    """ways of cutting n bytes into update calls"""
+    k = rng.below(4)
+    if n == 0 or k == 0:
+        return [n]
+    if k == 1:
+        a = rng.below(n + 1)
+        return [a, n - a]
+    if k == 2:
+        parts = []
+        left = n
+        while left > 0:
+            c = min(left, rng.choice([1, 7, 9, 17, 55, 63, 64, 65, 111, 127, 128, 129]))
+            parts.append(c)
+            left -= c
+        return parts
+    a = rng.below(n + 1)
+    return [a, 0, n - a]
+
+
+def gen_C04(rng, tier, cfg):
+    backends = backends_for(cfg, tier)
+    ops = []
+    stats = {"variants": {}, "lengths": {}, "putblock": 0, "splits": 0, "oneshot": 0, "backends": list(backends),
+             "counter_states": 0}
+    slot = 0
+    for be in backends:
+        ops.append("cfg backend %s" % be)
+        for bits, (w, b) in BLAKE_VARIANTS.items():
+            lens = blake_lengths(b, tier)
+            if tier == "quick" and be != backends[0]:
+                lens = [n for n in lens if n in (0, 1, b - 2 * w // 8 - 1, b - 2 * w // 8, b - 1, b, b + 1, 2 * b, 300)]
+            for n in lens:
+                slot = (slot + 1) % 8
+                ops.append("blake new %d %d" % (slot, bits))
+                parts = split_points(rng, n)
+                if len(parts) == 1:
+                    stats["oneshot"] += 1
+                else:
+                    stats["splits"] += 1
+                seed = rng.below(1000)
+                for c in parts:
+                    if c <= 160 and rng.below(3) == 0:
+                        ops.append("blake update %d %s" % (slot, hx(struct_bytes(rng, c))))
+                    else:
+                        ops.append("blake updpat %d %d %d" % (slot, c, seed))
+                        seed += 1
+                k = rng.below(4)
+                if k == 0:
+                    ops.append("blake getctr %d" % slot)
+                    ops.append("blake getstate %d" % slot)
+                ops.append("blake fin %d" % slot)
+                if k == 1:
+                    # fin left the slot unchanged: a clone continues identically
+                    ops.append("blake clone %d %d" % (slot, (slot + 1) % 8))
+                    ops.append("blake updpat %d %d %d" % ((slot + 1) % 8, rng.choice([1, 9, b - 1, b, b + 1]), seed))
+                    ops.append("blake fin %d" % ((slot + 1) % 8))
+                ops.append("blake finreset %d" % slot)
+                if k == 2:
+                    # after finalize_reset the hasher is fresh
+                    ops.append("blake getctr %d" % slot)
+                    ops.append("blake updpat %d %d %d" % (slot, rng.choice([0, 3, b]), seed))
+                    ops.append("blake finreset %d" % slot)
+                if k == 3:
+                    ops.append("blake updpat %d %d %d" % (slot, 5, seed))
+                    ops.append("blake reset %d" % slot)
+                    ops.append("blake fin %d" % slot)
+                stats["lengths"][n] = stats["lengths"].get(n, 0) + 1
+                stats["variants"][bits] = stats["variants"].get(bits, 0) + 1
+            # injected counters (C17 flavour): carries of t.0, and the checked `t.1 += 1`
+            W = 2 ** w
+            ctrs = [(W - 8 * b, 0), (W - 8 * b + 8, 5), (W - 8, 0), (W - 16, W - 2), (W - 8 * b, W - 1),
+                    (W - 8, W - 1), (0, W - 1), (W // 2, 7), (W - 512, W - 1), (12345 * 8, 3)]
+            for (t0, t1) in ctrs:
+                slot = (slot + 1) % 8
+                ops.append("blake new %d %d" % (slot, bits))
+                pre = rng.choice([0, 1, b - 1, 17])
+                ops.append("blake updpat %d %d %d" % (slot, pre, rng.below(1000)))
+                ops.append("blake setctr %d %d %d" % (slot, t0, t1))
+                ops.append("blake fin %d" % slot)
+                ops.append("blake clone %d %d" % (slot, (slot + 1) % 8))
+                ops.append("blake updpat %d %d %d" % ((slot + 1) % 8, rng.choice([b - pre, b, 2 * b + 3]), rng.below(1000)))
+                # the slot may have panicked half-way (debug): only look at it again if it did not
+                ops.append("blake new %d %d" % ((slot + 2) % 8, bits))
+                ops.append("blake setctr %d %d %d" % ((slot + 2) % 8, t0, t1))
+                ops.append("blake updpat %d %d %d" % ((slot + 2) % 8, 1, 3))
+                ops.append("blake getctr %d" % ((slot + 2) % 8))
+                ops.append("blake fin %d" % ((slot + 2) % 8))
+                slot = (slot + 2) % 8
+                stats["counter_states"] += 1
+        # component: put_block::<M> on random (h, block, t)
+        npb = 12 if tier == "quick" else 100
+        for ws, hb, bb, w in (("256", 32, 64, 32), ("512", 64, 128, 64)):
+            for i in range(npb):
+                h = struct_bytes(rng, hb)
+                blk = struct_bytes(rng, bb)
+                k = rng.below(5)
+                if k == 0:
+                    t0, t1 = 0, 0
+                elif k == 1:
+                    t0, t1 = 2 ** w - 1, 2 ** w - 1
+                elif k == 2:
+                    t0, t1 = 512 * rng.below(1000), 0
+                else:
+                    t0, t1 = rng.below(2 ** w), rng.below(2 ** w)
+                ops.append("blake putblock %s %s %s %d %d" % (ws, hx(h), hx(blk), t0, t1))
+                stats["putblock"] += 1
+    return [o for o in ops if o], stats
+
+
+GENS.update({"C01": gen_C01, "C04": gen_C04})
